@@ -1,0 +1,6 @@
+//go:build !verif
+
+package table
+
+// Verification hooks are compiled out without the `verif` build tag.
+func verifKey(h uint64) uint64 { return h }
